@@ -313,6 +313,25 @@ pub fn c20_case(bytes: &[u8], stats: &mut Stats, counting: bool) -> Verdict {
             return fail(k, m);
         }
     }
+    // the two edges of the `Schema` vertex in one query, in both orders: the second edge is then resolved once per row
+    // of the first (several contexts holding the same `Schema` vertex), and every one of them must see the full list
+    for (name, q) in [
+        ("schema-vertex-types-x-entrypoints", "{ Schema { vertex_type { tname: name @output } entrypoint { ename: name @output } } }"),
+        ("schema-entrypoints-x-vertex-types", "{ Schema { entrypoint { ename: name @output } vertex_type { tname: name @output } } }"),
+    ] {
+        let got = get!(q);
+        let mut want_x = BTreeSet::new();
+        for t in &want.types {
+            for e in &want.entry {
+                let tn = t.iter().find(|(k, _)| k == "name").map(|(_, v)| v.clone()).unwrap_or_default();
+                let en = e.iter().find(|(k, _)| k == "name").map(|(_, v)| v.clone()).unwrap_or_default();
+                want_x.insert(fact(&[("tname", tn), ("ename", en)]));
+            }
+        }
+        if let Some((k, m)) = diff(name, &got, &want_x) {
+            return fail(k, m);
+        }
+    }
     // entrypoint parameters, unfolded
     {
         let rows = get!("{ Entrypoint { ename: name @output parameter { name @output type @output default @output } } }");
